@@ -197,7 +197,8 @@ def check(ctx, replay=None):
                         viol("fault '%s': the target was started although the policy was not in force" % eff_fault, res)
                 else:
                     if res["rc"] != 0 or not res["marker"]:
-                        viol("valid policy: the sandbox did not run the target (rc %d): %s" % (res["rc"], res["stderr"]), res)
+                        # the statement does not oblige the command to run anything: recorded, not a verdict
+                        ctx.note("valid policy (nnp=%s uid=%d): the sandbox did not run the target (rc %d): %s" % (nnp, uid, res["rc"], res["stderr"][-120:]))
                     else:
                         try:
                             o = json.loads(res["stdout"].strip().splitlines()[-1])
@@ -219,7 +220,9 @@ def check(ctx, replay=None):
                 got = [p["errno"] for p in json.loads(res["stdout"].strip().splitlines()[-1])["probes"]]
             except Exception:
                 got = None
-            if res["rc"] != 0 or got != [1, 1, 38]:
+            if res["rc"] != 0 and not res["marker"]:
+                ctx.note("a %d-byte policy file was refused (rc %d): %s" % (size, res["rc"], res["stderr"][-120:]))
+            elif got != [1, 1, 38]:
                 viol("a %d-byte policy file whose second group sits at the end: the target observes %s, expected [EPERM, EPERM, ENOSYS] (rc %d)" % (size, got, res["rc"]), res,
                      {"policy": "(generated: first group, %d bytes of comment padding, second group)" % size})
         for fault, tail in BIG_TAILS_BAD.items():
@@ -284,7 +287,9 @@ def check(ctx, replay=None):
             got = [p["errno"] for p in o["probes"]]
         except Exception:
             got = None
-        if res["rc"] != 0 or got != want:
+        if res["rc"] != 0 and not res["marker"]:
+            ctx.note("a policy of the compiler scope was refused by the sandbox (rc %d): %s" % (res["rc"], res["stderr"][-120:]))
+        elif got != want:
             bad = [(p, g, w) for p, g, w in zip(probes, got or [], want) if g != w][:3]
             viol("the target does not observe the policy's decisions (rc %d, first differences (probe, errno, expected): %s)" % (res["rc"], bad), res,
                  {"policy": abstract_yaml(c["pol"], sys)})
